@@ -43,7 +43,7 @@ def collect_clone_seq(s: SeqOf(TSNode), code: Str) -> SeqOf(CloneCallT):
     return collect_clone(s[0], code) + collect_clone_seq(s[1:], code)
 
 
-@contract(F + "RustCloneAnalyzer._find_clone_recursive", props=["C17", "C12"],
+@contract(F + "RustCloneAnalyzer._find_clone_recursive", props=["C17", "C12", "C11", "C13", "C19"],
           types=dict(node=TSNode, code=Str, calls=SeqOf(CloneCallT), method_name=Str, pattern=Opt(Str)), modifies=["calls"],
           loop_split_unchecked=True)  # the feasibility queries for `rest` empty / non-empty time out (2.4 s each) here
 class FindCloneRecursive:
@@ -60,7 +60,7 @@ class FindCloneRecursive:
         return old.calls + collect_clone(node, code) == calls + collect_clone_seq(rest, code)
 
 
-@contract(F + "RustCloneAnalyzer.find_clone_calls", props=["C17"], types=dict(self=AnalyzerT, code=Str),
+@contract(F + "RustCloneAnalyzer.find_clone_calls", props=["C17", "C11", "C13", "C19"], types=dict(self=AnalyzerT, code=Str),
           returns=SeqOf(CloneCallT), named_types={"CloneCall": CloneCallT})
 class FindCloneCalls:
     def ensures_all_abusive_clones_of_the_file(self, code, result):
